@@ -97,6 +97,13 @@ def h_tables(ctx, N, d):
     ctx.fact(all(tuple(int(round(v)) for v in rays[j]) == rows[j] for j in range(nJ)), 'rays == multi-indices')
 
 
+def h_sequence(ctx, pairs):
+    """tables requested one after the other in the same process (no state may leak between
+    calls): in particular (N,d) pairs with the same number of multi-indices"""
+    for k, (N, d) in enumerate(list(pairs) + list(pairs)[:1]):
+        h_tables(ctx, N, d)
+
+
 def h_increment(ctx, N, d):
     """increment(i, k) enumerates exactly the multi-indices 0 <= k <= i in
     lexicographic order (used by gamma); multi_index_binomial is the product of
@@ -133,6 +140,9 @@ def units(tier, seed):
             if math.comb(N + d - 1, d) <= cap and not (tier == 'quick' and d > 4):
                 out.append(Unit('C15/tables N=%d d=%d' % (N, d), 'symx.props.c15', 'h_tables', {'N': N, 'd': d},
                                 {'property': PROP, 'validate': False}))
+    for pairs in ([[(2, 2), (3, 1)], [(3, 2), (2, 5)], [(2, 3), (4, 1)], [(1, 2), (1, 1), (1, 3)]] if tier == 'quick' else
+                  [[(2, 2), (3, 1)], [(3, 2), (2, 5), (6, 1)], [(2, 3), (4, 1)], [(3, 3), (4, 2)], [(1, 2), (1, 1), (1, 3)]]):
+        out.append(Unit('C15/sequence %s' % pairs, 'symx.props.c15', 'h_sequence', {'pairs': pairs}, {'property': PROP, 'validate': False}))
     for N, d in ([(2, 3), (3, 2)] if tier == 'quick' else [(2, 3), (3, 2), (3, 3), (4, 2), (2, 5)]):
         out.append(Unit('C15/increment+binomial N=%d d=%d' % (N, d), 'symx.props.c15', 'h_increment', {'N': N, 'd': d},
                         {'property': PROP, 'validate': False}))
